@@ -389,6 +389,8 @@ pub struct SessionEnds {
     pub bob: End,
     pub counts: Option<((usize, usize), (usize, usize))>,
     pub frames_forwarded: usize,
+    /// the frames forwarded, in order: (sent by the initiator?, length prefix and body)
+    pub frames: Vec<(bool, Vec<u8>)>,
 }
 
 pub async fn one_session(ha: &SyncHandle, hb: &SyncHandle, ns: NamespaceId, fault: Fault, at: usize, on_alice: bool) -> SessionEnds {
@@ -411,6 +413,7 @@ pub async fn one_session(ha: &SyncHandle, hb: &SyncHandle, ns: NamespaceId, faul
     let (mut brr, mut brw) = tokio::io::split(b_remote);
     let victim = if on_alice { ha.clone() } else { hb.clone() };
     let mut forwarded = 0usize;
+    let mut frames: Vec<(bool, Vec<u8>)> = vec![];
     let proxy = async {
         let mut a_open = true;
         let mut b_open = true;
@@ -463,6 +466,7 @@ pub async fn one_session(ha: &SyncHandle, hb: &SyncHandle, ns: NamespaceId, faul
             if w.is_err() {
                 break;
             }
+            frames.push((from_a, f));
             forwarded += 1;
         }
         let _ = arw.shutdown().await;
@@ -493,7 +497,7 @@ pub async fn one_session(ha: &SyncHandle, hb: &SyncHandle, ns: NamespaceId, faul
     };
     let (ca, cb) = (parse(&a_end_raw), parse(&b_end_raw));
     let fix = |e: End, c: Option<(usize, usize)>| if c.is_some() { End::Ok } else { e };
-    SessionEnds { alice: fix(a_end_raw, ca), bob: fix(b_end_raw, cb), counts: ca.zip(cb), frames_forwarded: forwarded }
+    SessionEnds { alice: fix(a_end_raw, ca), bob: fix(b_end_raw, cb), counts: ca.zip(cb), frames_forwarded: forwarded, frames }
 }
 
 async fn fault_case(ctx: &mut Ctx, case: u64, rng: &mut Rng) {
@@ -528,8 +532,105 @@ async fn fault_case(ctx: &mut Ctx, case: u64, rng: &mut Rng) {
             ctx.violation(case, "fault-free-session-did-not-converge", detail(json!({"a1": a1.short(), "b1": b1.short()})));
         }
     }
+    // the final sets of the fault-free run, for the pipelined replays below
+    let a_ref = Model::from_entries(act::dump(&ha, ns).await.unwrap_or_default());
+    let b_ref = Model::from_entries(act::dump(&hb, ns).await.unwrap_or_default());
     let _ = ha.shutdown().await;
     let _ = hb.shutdown().await;
+    // A peer that does not wait for the replies (added after seeded change agent-C10-8): the frames one
+    // side sent in the fault-free run are written again to a fresh instance of the other side, all at
+    // once or in 2..4 chunks cut at arbitrary bytes, so that one read picks up several frames or a frame
+    // and a half. The replies of a side depend on its state and on the frames it gets, not on how they
+    // are cut, so the side under test must end exactly as it did in the fault-free run: success, the
+    // same counts (they mirror what the peer sent and received), the same final set.
+    if base.alice == End::Ok && base.bob == End::Ok && !base.frames.is_empty() {
+        let (ca, cb) = base.counts.unwrap();
+        for from_a in [true, false] {
+            let mine: Vec<&Vec<u8>> = base.frames.iter().filter(|f| f.0 == from_a).map(|f| &f.1).collect();
+            if mine.len() < 2 {
+                continue;
+            }
+            let all: Vec<u8> = mine.iter().flat_map(|f| f.iter().copied()).collect();
+            let variants = if ctx.is_quick() { 2 } else { 4 };
+            for v in 0..variants {
+                let mut cuts: Vec<usize> = if v == 0 { vec![] } else { (0..rng.range(1, 3)).map(|_| rng.below(all.len())).collect() };
+                cuts.sort();
+                cuts.dedup();
+                let h = act::spawn(mk(if from_a { &eb } else { &ea }));
+                let _ = h.open(ns, OpenOpts::default().sync()).await;
+                let (local, remote) = tokio::io::duplex(1 << 20);
+                let (mut lr, mut lw) = tokio::io::split(local);
+                let h2 = h.clone();
+                let task = tokio::spawn(async move {
+                    if from_a {
+                        let mut state = BobState::new(peer_key(1));
+                        let res = state.run(lw, lr, h2, |_n, _p| async { AcceptOutcome::Allow }).await;
+                        let o = state.into_outcome();
+                        res.map(|_| (o.num_sent, o.num_recv)).map_err(|e| format!("{e:?}"))
+                    } else {
+                        run_alice(&mut lw, &mut lr, &h2, ns, peer_key(2)).await.map(|o| (o.num_sent, o.num_recv)).map_err(|e| format!("{e:?}"))
+                    }
+                });
+                let (mut rr, mut rw) = tokio::io::split(remote);
+                if !from_a {
+                    // an acceptor speaks after the request
+                    let mut len = [0u8; 4];
+                    if rr.read_exact(&mut len).await.is_ok() {
+                        let mut body = vec![0u8; u32::from_be_bytes(len) as usize];
+                        let _ = rr.read_exact(&mut body).await;
+                    }
+                }
+                let drain = tokio::spawn(async move {
+                    let mut buf = [0u8; 4096];
+                    while let Ok(n) = rr.read(&mut buf).await {
+                        if n == 0 {
+                            break;
+                        }
+                    }
+                });
+                let mut at = 0;
+                for c in cuts.iter().copied().chain([all.len()]) {
+                    if c > at {
+                        let _ = rw.write_all(&all[at..c]).await;
+                        let _ = rw.flush().await;
+                        at = c;
+                        for _ in 0..3 {
+                            tokio::task::yield_now().await;
+                        }
+                    }
+                }
+                let _ = rw.shutdown().await;
+                let end = finish(task, &h, ns, |r| match r {
+                    Ok(c) => End::Err(format!("OK{}:{}", c.0, c.1)),
+                    Err(e) => End::Err(e),
+                })
+                .await;
+                drop(rw);
+                let _ = tokio::time::timeout(Duration::from_secs(5), drain).await;
+                let side = if from_a { "acceptor" } else { "initiator" };
+                ctx.count(&format!("pipelined_peer_runs[{side}]"), 1);
+                ctx.count("frames_written_without_waiting", mine.len() as u64);
+                let expect = if from_a { cb } else { ca };
+                let d = |extra: serde_json::Value| json!({"a0": a0.short(), "b0": b0.short(), "side_under_test": side, "frames_of_the_peer": mine.len(), "chunk_cuts": cuts, "extra": extra});
+                match &end {
+                    End::Err(s) if s.starts_with("OK") => {
+                        if *s != format!("OK{}:{}", expect.0, expect.1) {
+                            ctx.violation(case, &format!("counts-differ-when-the-peer-does-not-wait[{side}]"), d(json!({"got": s, "fault_free_sent_recv": expect})));
+                        }
+                    }
+                    End::Err(e) => ctx.violation(case, &format!("session-fails-when-the-peer-does-not-wait[{side}]"), d(json!({"error": e}))),
+                    End::Ok => {}
+                    End::Panicked(p) => ctx.violation(case, &format!("session-panicked[{side}][pipelined]"), d(json!({"panic": p}))),
+                    End::Pending => ctx.violation(case, &format!("session-still-pending-after-streams-closed[{side}][pipelined]"), d(json!({}))),
+                }
+                let got = Model::from_entries(act::dump(&h, ns).await.unwrap_or_default());
+                if got != *(if from_a { &b_ref } else { &a_ref }) {
+                    ctx.violation(case, &format!("final-set-differs-when-the-peer-does-not-wait[{side}]"), d(json!({"got": got.short()})));
+                }
+                let _ = h.shutdown().await;
+            }
+        }
+    }
     let k = base.frames_forwarded;
     ctx.distinct("transcript_lengths", k as u64);
     if k >= 3 {
